@@ -1,12 +1,14 @@
 import OntVerif.Model.NeoExec
+import OntVerif.Driver.C14
 /-!
 Line driver for C12.
 
 * `X f <code>` — the machine of `Model/NeoExec.lean` on `<code>` with feature flags `f` (1 = AllowReaderEOF + DisableHasKey), at most
   20000 opcodes: `halt e=[…] a=[…]` (both stacks, top first, containers numbered in order of first visit, `@k` = container k again),
   `fault`, `unmodelled`, `steplimit`, `toodeep` (a value nested deeper than 3000), or — never, by `C12_step_total_no_oob` — `MODEL-PANIC`.
-* `V … | N … | E … | W …` — outside the model: the line carries only the crash predicate (evaluated by the harness on what the real code
-  did); the model accepts every observation (`nocrash ## CRASH ## PANIC ## TIMEOUT`).
+* `N … | E … | W …` — outside the model: the model's answer is `nocrash`, exactly (no crash class is known there any more).
+* `V <gas> <code>` — `nocrash`, exactly, unless the model — run without gas for at most 20000 opcodes — sees one of the still-known
+  unbounded-work mechanisms coming (see `predictV`); then the known outcomes are listed as alternatives.
 -/
 namespace OntVerif.Driver.C12
 open OntVerif.Util OntVerif.Model.NeoVal OntVerif.Model.NeoExec
@@ -62,26 +64,106 @@ def dumpM (m : M) : String :=
   let s := dumpStack m.heap m.eval s
   let s := emit s "] a=["
   let s := dumpStack m.heap m.alt s
-  let s := emit s "]"
+  let s := emit s s!"] n={m.notes}"
   if s.bad then "toodeep" else String.join s.out.toList
 
 def stepLimit : Nat := 20000
 
+/-- `VmValue.Serialize` as shipped, evaluated with the explicit-stack machine of the C14 driver (an undetected cycle is unrolled ~2*10^5
+levels deep: too deep for the native stack of this executable). `step` only calls it on values without multi-entry maps, where the
+iteration order plays no role. -/
+def serF (h : Heap) (v : Val) : Except VErr Bytes := (OntVerif.Driver.C14.serAll h v).1
+
 def runX (f : String) (code : Bytes) : String :=
   if code.isEmpty then "fault" else
   let flag := f == "1"
-  match run stepLimit { code := code, allowEOF := flag, disableHasKey := flag } with
+  match run serF stepLimit { code := code, allowEOF := flag, disableHasKey := flag } with
   | .halt m => dumpM m
   | .fault => "fault"
   | .unmod => "unmodelled"
   | .steplimit => "steplimit"
+  | .overflow => "CRASH"
   | .panic => "MODEL-PANIC"
   | .dangling => "MODEL-DANGLING"
   | .fuel => "MODEL-FUEL"
 
-/-- a line outside the model: the model has no opinion on the output (the harness prints `nocrash`, or what it observed when the process
-died); the verdict on such a line is the crash predicate evaluated by the harness (`Fail` / `Class`), not the comparison -/
-def outside : String := "nocrash ## CRASH ## PANIC ## TIMEOUT"
+/-! ## V lines: what the model can say about a transaction it does not fully model
+
+The two unbounded-work mechanisms that are still in the tree sit in `BuildParamToNative` (no size limit, no memory of what was visited,
+no nesting limit), reached through the `Ontology.Native.Invoke` syscall. The driver runs the model up to that syscall and looks at the
+argument: a value that unfolds to more than 10^7 values or is nested deeper than 10^5 may end in TIMEOUT / CRASH; so may an EQUAL that
+overflows the `reflect.DeepEqual` budget and (TIMEOUT only, on a loaded machine) a `Serialize` that unrolls an undetected cycle.
+Everything else — in particular the three repaired crashes — is `nocrash`, exactly. -/
+
+def nameNativeInvoke : Bytes := "Ontology.Native.Invoke".toUTF8.toList
+
+/-- per object: (values visited when unfolded, nesting depth), both saturating; `k` rounds of the bottom-up recurrence -/
+def shapeRounds (h : Heap) (cap : Nat) : Nat → Array (Nat × Nat) → Array (Nat × Nat)
+  | 0, t => t
+  | k+1, t =>
+    let t' := (Array.range h.length).map fun r =>
+      match h[r]? with
+      | some (.arr vs) | some (.struct vs) =>
+        vs.foldl (fun (acc : Nat × Nat) v =>
+          match v with
+          | .ref c => let (s, d) := t.getD c (0, 0); (min cap (acc.1 + 1 + s), max acc.2 (d + 1))
+          | _ => (min cap (acc.1 + 1), acc.2)) (0, 0)
+      | _ => (0, 0)
+    if t' == t then t else shapeRounds h cap k t'
+
+def heavyArg (h : Heap) (v : Val) : Bool :=
+  match v with
+  | .ref r =>
+    let cap := 10000001
+    let t := shapeRounds h cap (min h.length 200000 + 1) (Array.replicate h.length (0, 0))
+    let (s, d) := t.getD r (0, 0)
+    decide (s > 10000000) || decide (d > 100000)
+  | _ => false
+
+/-- an undetected cycle below the value: `Serialize` returns, after unrolling it up to the size limit -/
+def slowSerialize (h : Heap) (v : Val) : Bool :=
+  hasCycle h v && !(detect .asShipped Perm.id [] h v)
+
+inductive VPred | exact | slow | heavy
+
+def peekName (m : M) : Option Bytes :=
+  match readByte m.code m.pos with
+  | .ok (b, p) => if b.toNat ≥ 0xFD then none else
+      match readBytes m.allowEOF m.code p b.toNat with
+      | .ok (n, _) => some n
+      | _ => none
+  | _ => none
+
+/-- run the model; `slow` accumulates -/
+def runV : Nat → M → Bool → VPred
+  | 0, _, _ => .heavy                      -- the model's step budget is used up: no opinion
+  | n+1, m, slow =>
+    if m.ctxNil then (if slow then .slow else .exact) else
+    if position m.code m.pos ≥ m.code.length then (if slow then .slow else .exact) else
+    match readByte m.code m.pos with
+    | .ok (op, pos) =>
+      let m1 := { m with pos := pos }
+      let slow := slow || (op.toNat == 0x68 && peekName m1 == some nameSerialize &&
+        (match m.eval.reverse with | v :: _ => slowSerialize m.heap v | [] => false))
+      if op.toNat == 0x68 && peekName m1 == some nameNativeInvoke then
+        match m.eval.reverse with
+        | _ :: _ :: _ :: args :: _ => if heavyArg m.heap args then .heavy else (if slow then .slow else .exact)
+        | _ => if slow then .slow else .exact
+      else
+      match step serF m1 op.toNat with
+      | .ok m' => runV n m' slow
+      | .overflow => .heavy
+      | _ => if slow then .slow else .exact
+    | _ => if slow then .slow else .exact
+
+def predictV (code : Bytes) : String :=
+  if code.isEmpty then "nocrash" else
+  -- every model step costs O(code length) (the code is a list): long scripts get a smaller step budget; using it up is "no opinion"
+  let budget := min stepLimit (40000000 / (code.length + 1))
+  match runV budget { code := code } false with   -- the solo chain of the harness is past the opcode-update height: both flags off
+  | .exact => "nocrash"
+  | .slow => "nocrash ## TIMEOUT"
+  | .heavy => "nocrash ## CRASH ## TIMEOUT"
 
 def handle (line : String) : String :=
   match fields line with
@@ -89,10 +171,13 @@ def handle (line : String) : String :=
     match unhex c with
     | some code => runX f code
     | none => "badline"
-  | "V" :: _ => outside
-  | "N" :: _ => outside
-  | "E" :: _ => outside
-  | "W" :: _ => outside
+  | ["V", _, c] =>
+    match unhex c with
+    | some code => predictV code
+    | none => "badline"
+  | "N" :: _ => "nocrash"
+  | "W" :: _ => "nocrash"
+  | "E" :: _ => "nocrash"
   | _ => "badline"
 
 end OntVerif.Driver.C12
